@@ -607,6 +607,7 @@ class Interp:
         # (what an accepting implementation has to bind) and flags the program,
         # so a check can accept "refused" or "bound to the converted value".
         self.convert_debatable = False
+        self.meta_params = False
 
     def feat(self, f):
         self.prog.features.add(f)
@@ -677,7 +678,12 @@ class Interp:
         if k == "param":
             self.feat("param")
             if self.in_metadata:
-                raise OOD("template parameter in metadata")
+                if not self.meta_params:
+                    raise OOD("template parameter in metadata")
+                # C07 only: the option holds the symbol; whether such a name is reported as a free parameter is not
+                # settled by any statement, so it is not recorded among the written parameters
+                self.feat("metadata-param")
+                return Sym(("param", e[1]))
             self.prog.params.append(e[1])
             return Sym(("param", e[1]))
         if k == "var":
@@ -1001,6 +1007,11 @@ class Interp:
                 raise IllFormed("include-keywords", op.name, optok.line, optok.col)
             asg = {}
             for k, v in op.kwargs:
+                if isinstance(v, Sym) and not v.regs():
+                    # the caller's own template parameters are passed on: all parameters are bound simultaneously
+                    self.feat("include-symbolic-argument")
+                    asg[("param", k)] = v
+                    continue
                 if not (isinstance(v, V) and v.k in "if"):
                     raise OOD("non-real value bound to an include parameter")
                 if v.k == "i" and not isinstance(v.v, int):
@@ -1160,12 +1171,29 @@ def convert(v, want):
     raise OOD("conversion %s <- %s" % (want, v.k))
 
 
+def _subst_tree(t, asg):
+    k = t[0]
+    if k == "param":
+        b = asg[("param", t[1])]
+        return b.tree if isinstance(b, Sym) else ("num", b)
+    if k in ("num", "reg"):
+        return t
+    if k == "neg":
+        return ("neg", _subst_tree(t[1], asg))
+    if k == "func":
+        return ("func", t[1], _subst_tree(t[2], asg))
+    return ("bin", t[1], _subst_tree(t[2], asg), _subst_tree(t[3], asg))
+
+
 def subst(value, asg):
     """Bind template parameters inside a reference value (include calls, C04)."""
     if isinstance(value, Sym):
         rest = value.params() - {k[1] for k in asg}
         if rest or value.regs():
             raise OOD("partial binding")
+        if any(isinstance(asg[("param", p)], Sym) for p in value.params()):
+            # some of the bound values are the caller's parameters: simultaneous substitution into the tree
+            return Sym(_subst_tree(value.tree, asg))
         r = value.evaluate(asg)
         if value.tree[0] == "param":
             return r     # a bare parameter receives the bound value itself: kind and sign of zero included
@@ -1249,12 +1277,13 @@ def _has_func(t):
     return False
 
 
-def run(text, grammar, fs=None, filename=None, depth=0, tokens=None, check=True, allow_func=False, convert_debatable=False):
+def run(text, grammar, fs=None, filename=None, depth=0, tokens=None, check=True, allow_func=False, convert_debatable=False, meta_params=False):
     """Interpret a script.  See the module docstring for the outcomes."""
     toks = tokens if tokens is not None else grammar.tokenize(text)
     meta, items = parse_tokens(toks)
     it = Interp(grammar, fs=fs, filename=filename, depth=depth)
     it.convert_debatable = convert_debatable
+    it.meta_params = meta_params
     it.run_meta(meta)
     it.run_items(items)
     p = it.prog
